@@ -22,15 +22,12 @@ theorem valToStr_isStr {v : Val} : (∃ x, valToStr v = some x) ↔ isStr v = tr
 theorem valToStr_none {v : Val} (h : isStr v = false) : valToStr v = none := by
   cases v <;> simp [valToStr, isStr] at h ⊢
 
-/-- `stack$` prints every value of a stack that holds no function values -/
-theorem printAll_eq (vs : List Val) (h : ∀ v ∈ vs, isExec v = false) :
-    runBuiltin.printAll vs = some (vs.map shown) := by
-  induction vs with
-  | nil => rfl
-  | cons v vs ih =>
-    have := ih (fun w hw => h w (List.mem_cons_of_mem _ hw))
-    have hv := h v List.mem_cons_self
-    cases v <;> simp_all [runBuiltin.printAll, shown, isExec, intToStr]
+/-- the model's print-out of a value is the documented one -/
+theorem printVal_eq_shown (v : Val) : printVal v = shown v := by
+  cases v <;> rfl
+
+theorem map_printVal (vs : List Val) : vs.map printVal = vs.map shown :=
+  List.map_congr_left (fun v _ => printVal_eq_shown v)
 
 /-! ### fuel -/
 
